@@ -9,6 +9,8 @@ CONSTANTS
   MaxCredit = 5
   MaxTick = 3
   Limit = 100
+  AAM = TRUE
+  WithSReconf = FALSE
   Defaults = TRUE
 SPECIFICATION Spec
 INVARIANT EmitDirected
